@@ -1,10 +1,96 @@
+import TexcraftModel.Model.C09
 import TexcraftModel.Util.Proto
-open Proto
+open Proto C09
 
+/-!
+Driver for C09. Requests:
+
+* `proto <e|s|n|b> <event>*`   → `<outcome> contract=<0|1> safe=<0|1> spec=<outcome>`
+* `exc <idx> <nchars> <nbytes> <spaces> <carets> | <code point>*`
+      the excerpt of a line (code points) for a token of `nchars` characters / `nbytes` bytes at
+      character `idx`; `spaces`/`carets` are what the real rendering printed under the line.
+      → `ok <code points of the printed line> ; located=<0|1> old=<panic|same|diff>` or `panic`
+* `trace <off> | <code point>*` → `ok <line> <pos> <code points of the line>` or `panic`
+* `chr <i>` → `ok <c>` | `err <c>` | `panic`        (`charFromCode`)
+* `uint <N> <i>` → `ok <v>` | `err <v>`             (`uintBound`)
+* `ifcase <n> <k>` → `some <j>` | `none`            (`ifcaseSelect`)
+-/
 namespace DrvC09
+
+def b2i (b : Bool) : Nat := if b then 1 else 0
+
+def modeOf : String → Option Mode
+  | "e" => some .errorstop | "s" => some .scroll | "n" => some .nonstop | "b" => some .batch
+  | _ => none
+
+def evOf : String → Option Ev
+  | "ok" => some .ok
+  | "rec" => some .recoverable
+  | "fatal" => some .fatal
+  | "end" => some .shutdown
+  | "ignfatal" => some .ignFatal
+  | "ignend" => some .ignShutdown
+  | "ignrec" => some .ignRecoverable
+  | "spur" => some .spurious
+  | "e" => some (.setMode .errorstop)
+  | "s" => some (.setMode .scroll)
+  | "n" => some (.setMode .nonstop)
+  | "b" => some (.setMode .batch)
+  | _ => none
+
+def showOutcome : Outcome → String
+  | .ok => "ok" | .err => "err" | .panicIgnored => "panic-ignored" | .panicUnreachable => "panic-unreachable"
+
+def chars? (ws : List String) : Option (List Char) := (nats? ws).map (·.map Char.ofNat)
+
+def showChars (l : List Char) : String := showNats (l.map Char.toNat)
+
+def showR : R Nat → String
+  | .ok v => s!"ok {v}" | .err v => s!"err {v}" | .panic => "panic"
 
 def handle (line : String) : String :=
   match words line with
+  | "proto" :: m :: evs =>
+    match modeOf m, evs.mapM evOf with
+    | some m, some evs =>
+      let o := run m evs
+      let contract := evs.all Ev.respects
+      let safe := o == .ok || o == .err
+      s!"{showOutcome o} contract={b2i contract} safe={b2i safe} spec={showOutcome (specRun m evs)}"
+    | _, _ => "bad-request"
+  | "exc" :: idx :: nch :: nby :: sp :: ca :: "|" :: cs =>
+    match nats? [idx, nch, nby, sp, ca], chars? cs with
+    | some [idx, nch, nby, sp, ca], some l =>
+      let old := highlightOld l idx nby
+      match highlight l idx nch with
+      | .panic => "panic"
+      | e =>
+        let txt := (e.text.getD [])
+        let oldS := if old == .panic then "panic" else if old.text == e.text then "same" else "diff"
+        s!"ok {showChars txt} ; located={b2i (sp == idx && ca == nch)} old={oldS}"
+    | _, _ => "bad-request"
+  | "trace" :: off :: "|" :: cs =>
+    match off.toNat?, chars? cs with
+    | some off, some l =>
+      match trace l off with
+      | .ok ln pos c => s!"ok {ln} {pos} {showChars c}"
+      | .panic => "panic"
+    | _, _ => "bad-request"
+  | ["chr", i] =>
+    match i.toInt? with
+    | some i => showR (charFromCode i)
+    | none => "bad-request"
+  | ["uint", n, i] =>
+    match n.toNat?, i.toInt? with
+    | some n, some i => showR (uintBound n i)
+    | _, _ => "bad-request"
+  | ["ifcase", n, k] =>
+    match n.toInt?, k.toNat? with
+    | some n, some k =>
+      match ifcaseSelect n k with
+      | some j => s!"some {j}"
+      | none => "none"
+    | _, _ => "bad-request"
   | _ => "bad-request"
 
 end DrvC09
